@@ -32,7 +32,7 @@ COMPONENTS = {"real": ["ECAgent.Collectors.AgentCollector.collect", "FileCollect
                        "overflow/finalisation; crash drops buffers)", "mutator systems and collect() bodies are harness code"]}
 PROBES = ["empty_record_suppressed", "collector_off_window", "removed_by_higher_priority_same_step",
           "added_by_higher_priority_same_step", "changed_after_collector_turn", "composite_used", "value_zero_recorded",
-          "crash_at_flush_boundary", "crash_mid_flush", "real_file", "empty_collection", "empty_flush",
+          "crash_at_flush_boundary", "crash_mid_flush", "real_file", "composite_shared_dict", "empty_collection", "empty_flush",
           "preexisting_content", "two_file_collectors", "buffer_overflow_mid_flush"]
 TECHNIQUE = "deterministic simulation: population changing on a seeded schedule inside timesteps vs a replaying reference; simulated disk with crash points and the conservation invariant file + held = collected"
 LEVEL_TEXT = ("Seeded search over population-change schedules, collector windows and disk behaviour; after every timestep the "
@@ -88,7 +88,7 @@ def gen_agent_arm(rng, tier):
         c = {"id": "AgentCollector" if i == 0 and rng.random() < 0.5 else f"col{i}",
              "prio": rng.choice([None, None, None, 2, 0, -1, -3]),
              "func": rng.choice(["value", "value", "none_for_neg", "always_none", "listed", "even_only"]),
-             "composite": rng.choice([None, None, "dict", "empty", "none"]), "ts": rng.random() < 0.4}
+             "composite": rng.choice([None, None, "dict", "empty", "none", "shared", "shared"]), "ts": rng.random() < 0.4}
         c.update(gen_window(rng, steps))
         collectors.append(c)
     return {"arm": "agent", "agents0": agents0, "mutators": mutators, "collectors": collectors,
@@ -133,7 +133,7 @@ FUNCS = {
 
 
 def composite_ref(kind, pop):
-    if kind == "dict":
+    if kind in ("dict", "shared"):
         return {"#total": sum(pop.values()), "#n": len(pop)}
     if kind == "empty":
         return {}
@@ -223,7 +223,15 @@ def run_agent_arm(sc, ctx):
             comp = None
             if s["composite"] is not None:
                 kind_c = s["composite"]
-                comp = (lambda agents, kind_c=kind_c: composite_ref(kind_c, {k: a[Val].v for k, a in agents.items()}))
+                if kind_c == "shared":
+                    # the user's function keeps ONE dict and updates it in place (running aggregates / reused buffer)
+                    def comp(agents, buf={}):
+                        buf.clear() if False else None
+                        buf.update(composite_ref("dict", {k: a[Val].v for k, a in agents.items()}))
+                        return buf
+                    ctx.probe("composite_shared_dict")
+                else:
+                    comp = (lambda agents, kind_c=kind_c: composite_ref(kind_c, {k: a[Val].v for k, a in agents.items()}))
             obj = COL.AgentCollector(m, (lambda a, fn=fn: fn(a[Val].v)), compositeFunc=comp, includeTimstep=s["ts"], **kw)
             cols[s["id"]] = obj
             rs = {"id": s["id"], "prio": -1 if s["prio"] is None else s["prio"], "start": s["start"], "end": s["end"],
